@@ -410,6 +410,21 @@ fn main() {
                 let above: Vec<usize> = a[2].split(',').filter(|s| *s != "-").map(|s| s.parse().unwrap()).collect();
                 match vh::precomputed_ring_for_rf(c, &above, a[3].parse().unwrap()) { Some(t) => t.to_string(), None => "None".to_string() }
             }
+            // mdparams <ext 0|1> <use_cached 0|1> <column count> <metadata id hex|none>: skip_metadata / cached metadata used / id sent, decided by a real Connection
+            "mdparams" => {
+                let unhex = |s: &str| -> Vec<u8> { (0..s.len() / 2).map(|i| u8::from_str_radix(&s[2 * i..2 * i + 2], 16).unwrap()).collect() };
+                let id = if a[4] == "none" { None } else { Some(unhex(a[4])) };
+                let (skip, cached, sent) = vh::metadata_params(a[1] == "1", a[2] == "1", a[3].parse().unwrap(), id);
+                let sent = match sent { None => "none".to_string(), Some(v) if v.is_empty() => "empty".to_string(), Some(v) => v.iter().map(|b| format!("{:02x}", b)).collect() };
+                format!("skip={} cached={} id={}", skip as u8, cached as u8, sent)
+            }
+            // mdafter <current column count> <current id hex|none> <new column count> <new id hex|none>: the statement's metadata after a ROWS response
+            "mdafter" => {
+                let unhex = |s: &str| -> Vec<u8> { (0..s.len() / 2).map(|i| u8::from_str_radix(&s[2 * i..2 * i + 2], 16).unwrap()).collect() };
+                let opt = |s: &str| if s == "none" { None } else { Some(unhex(s)) };
+                let (cols, id) = vh::metadata_after_rows((a[1].parse().unwrap(), opt(a[2])), (a[3].parse().unwrap(), opt(a[4])));
+                format!("{} {}", cols, match id { None => "none".to_string(), Some(v) => v.iter().map(|b| format!("{:02x}", b)).collect() })
+            }
             "token_new" => Token::new(num(1) as i64).value().to_string(),
             _ => "UNKNOWN".to_string(),
         };
